@@ -115,7 +115,7 @@ class RateLimiter(BaseRateLimiter):
                         )
                         return True
                     recent_timestamps.insert(0, self._timestamp())
-                    if "." in key:
+                    if key == client_address:
                         # specific ip address rules take precedence
                         # stop evaluating global and ip rules
                         return False
